@@ -94,7 +94,7 @@ def bound(sec, style):
     """seconds -> window bound as the config would carry it."""
     if sec is None:
         return None
-    d = dt.datetime(1970, 1, 1) + dt.timedelta(seconds=int(sec))
+    d = dt.datetime(1970, 1, 1) + dt.timedelta(milliseconds=int(round(float(sec) * 1000)))   # (whole seconds or fractions)
     if style == "datetime":
         return d
     return d.isoformat()
@@ -116,7 +116,7 @@ def ref_mask(times, start, end):
 
 def dt64n(secs):
     """epoch seconds (None = NaT) -> datetime64[ns]"""
-    return np.array([np.datetime64("NaT") if s is None else np.datetime64(int(s), "s") for s in secs], dtype="datetime64[ns]") if len(secs) else np.array([], dtype="datetime64[ns]")
+    return np.array([np.datetime64("NaT") if s is None else np.datetime64(int(round(float(s) * 1000)), "ms") for s in secs], dtype="datetime64[ns]") if len(secs) else np.array([], dtype="datetime64[ns]")
 
 
 def window_kind(times, start, end):
